@@ -14,6 +14,8 @@ import (
 
 // cold start: the FIRST use of the package in this process is made by many goroutines at once
 // (lazily initialised state is only ever unprotected then); references are computed afterwards.
+var mixedCase = []string{"Person", "PERSON", "pErSoN", "Ox", "OXEN", "Men", "MAN", "Tooth", "GEESE", "Child", "Testes", "opus", "People"}
+
 func coldStart(args []string) int {
 	mode := "mixed"
 	if len(args) > 0 {
@@ -29,8 +31,13 @@ func coldStart(args []string) int {
 		go func(g int) {
 			defer wg.Done()
 			<-start
-			for k := 0; k < 3; k++ {
+			for k := 0; k < 6; k++ {
 				in := inputs[(g+k)%len(inputs)]
+				if k >= 3 {
+					// DISTINCT strings per goroutine (the memo cannot serialise them) ending in an irregular word in
+					// a spelling nobody has used yet: lazily extended lookup tables are written concurrently then
+					in = fmt.Sprintf("g%d-", g) + mixedCase[(g+k)%len(mixedCase)]
+				}
 				r := res{in: in}
 				if mode != "singularize" {
 					r.p = inflector.Pluralize(in)
